@@ -130,6 +130,11 @@ def check_controller(res, T, cname, unit, via_clone=False):
             res.violation(f"C10:pattern-max:{T}.{cname}", f"{K}: pattern_value(max={hi}) = {pattern_value(mod, hi)} != 0x8000", {"type": T, "controller": cname, "unit": unit, "value": hi})
     elif lo_hi is not None:
         res.count("pattern_endpoints_checked", 2)
+    if lo_hi is not None and res.evaluations % 7 == 0:
+        lo, hi = lo_hi
+        res.sample({"type": T, "controller": cname, "unit": unit, "kind": sc.kind, "values_enumerated": n, "via_clone": via_clone,
+                    "observed_min": {"value": lo, "stored": get_raw(cname) if set_raw(cname, sc.stored(lo, unit)) is None else None, "pattern": pattern_value(mod, lo)},
+                    "observed_max": {"value": hi, "stored": get_raw(cname) if set_raw(cname, sc.stored(hi, unit)) is None else None, "pattern": pattern_value(mod, hi)}})
     res.evaluations += n
     res.distinct += n
     res.count("pairs_checked", n)
@@ -183,10 +188,6 @@ def run_shard(spec_, res):
         for i, (T, cname) in enumerate(PROXY_TARGETS):
             if i % 16 == spec_["shard"]:
                 check_proxy(res, T, cname)
-    if spec_["shard"] == 0:
-        res.sample({"type": "Amplifier", "controller": "balance", "value": -128, "stored": 0, "pattern": 0})
-        res.sample({"type": "Amplifier", "controller": "balance", "value": 128, "stored": 256, "pattern": 32768})
-        res.sample({"type": "MultiSynth", "controller": "transpose", "kind": "compact", "value": -2, "stored": 126, "pattern": 126})
     res.exhaustive = True
 
 
